@@ -78,3 +78,28 @@ fn verif_native_c09_definitions() {
     let ex: Vec<String> = examples.iter().map(|(k, v)| format!("{k} e.g. `{v}`")).collect();
     assert!(examples.is_empty(), "C09.N.definitions: FAILSET{{{}}} {} panic sites in {} definitions: {:?}", sites.join(","), examples.len(), n, ex);
 }
+
+
+//@n {"id":"C09.N.definitions.hang","props":["C09"],"tier":"quick","bound":"12 degenerate definitions consisting only of modifiers, separators or sigils; each instantiated in its own thread with a 5 s limit","text":"instantiating an operator from any text returns (a handle or an error) in bounded time; it never loops without bound"}
+#[test]
+fn verif_native_c09_definitions_hang() {
+    let defs = ["omit_fwd", "inv", "inv inv", "omit_inv omit_fwd", "inv omit_fwd inv", "<", ">", "< >", "|", "| |", "$", "="];
+    let mut hung = Vec::new();
+    for def in defs {
+        let (tx, rx) = std::sync::mpsc::channel();
+        let d = def.to_string();
+        std::thread::spawn(move || {
+            let r = std::panic::catch_unwind(|| {
+                let mut ctx = Minimal::default();
+                let _ = ctx.op(&d);
+            });
+            let _ = tx.send(r.is_ok());
+        });
+        match rx.recv_timeout(std::time::Duration::from_secs(5)) {
+            Ok(true) => {}
+            Ok(false) => hung.push(format!("`{def}` panics")),
+            Err(_) => hung.push(format!("`{def}` does not return within 5 s")),
+        }
+    }
+    assert!(hung.is_empty(), "C09.N.definitions.hang: {} of {} definitions: {:?}", hung.len(), defs.len(), hung);
+}
